@@ -46,12 +46,18 @@ Section loops.
   (* slices: the index recorded is the position of the failing element; everything before it succeeded *)
   Lemma each_assign_error a : forall srcs i olds st er',
     each_assign ea i a srcs olds st = Errored er' ->
-    exists k s o st0 er, nth_error srcs k = Some s /\ nth_error olds k = Some o /\
+    exists k s o st0 er, nth_error srcs k = Some s /\ (nth_error olds k = Some o \/ (nth_error olds k = None /\ o = VNil)) /\
                          ea a s o st0 = Errored er /\ er' = push_elem (DIndex (i + N.of_nat k)) er.
   Proof.
     induction srcs as [|s sr IH]; intros i olds st er' H; cbn [each_assign] in H; [discriminate|].
     destruct olds as [|o orr].
-    - destruct (touches a s); [discriminate|]. apply IH in H as (k & s' & o' & st0 & er & _ & Ho & _). destruct k; discriminate.
+    - destruct (touches a s).
+      + apply store_into_nil_error in H as (er & He & ->). exists 0%nat, s, VNil, st, er.
+        repeat split; auto. rewrite N.add_0_r. reflexivity.
+      + apply IH in H as (k & s' & o' & st0 & er & Hs & Ho & He & ->).
+        exists (S k), s', o', st0, er. repeat split; auto.
+        * right. destruct Ho as [Ho|[Ho Hv]]; [destruct k; discriminate|]. split; [reflexivity|exact Hv].
+        * f_equal. f_equal. lia.
     - destruct (ea a s o st) as [[v st1]| | | |] eqn:E1; cbn [tag obind] in H; try discriminate.
       + destruct (each_assign ea (i + 1) a sr orr st1) as [[vs st2]| | | |] eqn:E2; cbn [obind] in H; try discriminate.
         injection H as <-. apply IH in E2 as (k & s' & o' & st0 & er0 & Hs & Ho & He & ->).
